@@ -449,6 +449,8 @@ inductive ArgKind where
   | u64   -- `extract_u64`: the error is the text of the `ParseIntError`
   | flt   -- `extract_float`
   | usz   -- `extract_string(..).parse::<usize>()` with the generic integer error
+  | kw    -- `extract_string(..).to_uppercase()`: a word compared as a keyword
+  | u32   -- `extract_string(..).parse::<u32>()`
   deriving DecidableEq, Repr
 
 /-- an argument slot: its kind and (Lua translator) the error text used instead of the generic one -/
@@ -479,6 +481,10 @@ def Arg.extract (a : Arg) (v : Bytes) : Except BErr Tok :=
   | .usz => match parseUnsigned u64Max v with
     | .ok n => .ok (.n n)
     | .error _ => fail .notInt
+  | .kw => .ok (.s (upper (lossy v)))
+  | .u32 => match parseUnsigned u32Max (lossy v) with
+    | .ok n => .ok (.n n)
+    | .error _ => fail .notInt
 
 def aIntE (l : Lit) : Arg := { kind := .int, onErr := some l }
 def aStr : Arg := { kind := .str }
@@ -486,6 +492,8 @@ def aSds : Arg := { kind := .sds }
 def aInt : Arg := { kind := .int }
 def aU64 : Arg := { kind := .u64 }
 def aFlt : Arg := { kind := .flt }
+def aKw : Arg := { kind := .kw }
+def aUsz : Arg := { kind := .usz }
 
 /-- extract a fixed sequence of slots, left to right, first error wins; surplus/missing
     arguments are `unreachable` (the arity test has run) -/
@@ -649,8 +657,6 @@ def headVariant : List Bytes → List Bytes → Bool
 def prefixV (n : Nat) (tail : List Bytes → List Bytes → Bool) (a b : List Bytes) : Bool :=
   a.take n == b.take n && tail (a.drop n) (b.drop n)
 
-/-! ## table entries -/
-
 inductive Arity where
   | any
   | exact (n : Nat)
@@ -669,16 +675,112 @@ def Arity.ok : Arity → Nat → Bool
   | .evenAtLeast n, k => n ≤ k && k % 2 == 0
   | .oddAtLeast n, k => n ≤ k && k % 2 == 1
 
+/-! ## generic body shape: fixed slots, optional slots, a tail, a finishing function
+
+  Every hand-written body below is (proved to be, `Lemmas/GrammarShape.lean`) an instance of `runGen`:
+  the leading slots are extracted left to right, then the optional ones that are present, then the
+  tail (a `Vec`, pairs, an option scan, leading flags + pairs, or the raw rest), and the finishing
+  function builds the command from the tokens (range checks, option conflicts, constant fields).
+  The structural part (`pre`, `opt`, `tail`) is what `./check C16` compares with the shape descriptor
+  extracted from the match arms of the source. -/
+
+/-- what an option scan answers for a word that is not in its table -/
+inductive Unk where
+  | lit (l : Lit)      -- `_ => return Err("…")`
+  | fmt (f : Fmt)      -- `_ => return Err(format!("…{}", opt))`
+  deriving DecidableEq, Repr
+
+def Unk.fn : Unk → Bytes → Option BErr
+  | .lit l, _ => some (.lit l)
+  | .fmt f, w => some (.fmt f w)
+
+inductive Tail where
+  | none                                                  -- no further argument (the arity rule excludes them)
+  | ignore                                                -- further arguments are not looked at
+  | many (a : Arg)                                        -- a `Vec`
+  | pairs (a b : Arg)                                     -- a `Vec` of pairs
+  | scan (tbl : List OptSpec) (unk : Unk)                 -- `while i < len { match opt { … } }`
+  | flagsPairs (flags : List Bytes) (odd : Lit) (a b : Arg)   -- leading flags, then pairs (ZADD)
+  | raw                                                   -- handed to the finishing function as it is
+
+/-- what the tail yields -/
+inductive TailV where
+  | none
+  | toks (n : Nat) (ts : List Tok)
+  | seen (s : Seen)
+  | flags (fl : List Bytes) (n : Nat) (ts : List Tok)
+  | raw (args : List Bytes)
+
+structure GenDesc where
+  dom : Arity                   -- the argument counts the body is written for (the arity rule of its entry implies it)
+  pre : List Arg
+  opt : List Arg := []
+  tail : Tail
+  fin : List Tok → TailV → BRes
+  ctors : List Bytes            -- the constructors `fin` can answer
+  finLits : List Lit := []      -- the error literals `fin` can answer
+
+/-- the leading slots, left to right; the rest of the arguments -/
+def takeSlots : List Arg → List Bytes → Except BErr (List Tok × List Bytes)
+  | [], vs => .ok ([], vs)
+  | _ :: _, [] => .error .unreachable
+  | a :: as, v :: vs => do
+    let t ← a.extract v
+    let r ← takeSlots as vs
+    pure (t :: r.1, r.2)
+
+/-- the optional slots that are present -/
+def takeOpt : List Arg → List Bytes → Except BErr (List Tok × List Bytes)
+  | a :: as, v :: vs => do
+    let t ← a.extract v
+    let r ← takeOpt as vs
+    pure (t :: r.1, r.2)
+  | _, vs => .ok ([], vs)
+
+def Tail.run : Tail → List Bytes → Except BErr TailV
+  | .none, rest => if rest.isEmpty then .ok .none else .error .unreachable
+  | .ignore, _ => .ok .none
+  | .many a, rest => do
+    let us ← extractAll a rest
+    pure (.toks rest.length us)
+  | .pairs a b, rest => do
+    let us ← extractPairs a b rest
+    pure (.toks (rest.length / 2) us)
+  | .scan tbl unk, rest => do
+    let s ← scanOpts tbl unk.fn rest
+    pure (.seen s)
+  | .flagsPairs flags odd a b, rest =>
+    if (takeFlags flags rest).2.length % 2 != 0 || (takeFlags flags rest).2.length == 0 then .error (.lit odd)
+    else do
+      let us ← extractPairs a b (takeFlags flags rest).2
+      pure (.flags (takeFlags flags rest).1 ((takeFlags flags rest).2.length / 2) us)
+  | .raw, rest => .ok (.raw rest)
+
+/-- the generic body: an argument count outside `dom` is `unreachable` (the arity test has run) -/
+def runGen (d : GenDesc) (args : List Bytes) : BRes :=
+  match d.dom.ok args.length with
+  | false => .error .unreachable
+  | true => do
+    let p ← takeSlots d.pre args
+    let o ← takeOpt d.opt p.2
+    let tv ← d.tail.run o.2
+    d.fin (p.1 ++ o.1) tv
+
+/-! ## table entries -/
+
 /-- a body written as a function, with the relation "`a` and `b` differ only in the letter case
     of words in keyword position" and the proof that the body cannot tell them apart -/
 structure CustomBody where
   f : List Bytes → BRes
   kwv : List Bytes → List Bytes → Bool
   sound : ∀ a b, kwv a b = true → f a = f b
+  /-- the shape of the body: `f` IS the generic body over it -/
+  desc : GenDesc
+  desc_ok : ∀ args, f args = runGen desc args
 
 /-- a body without keyword positions -/
-def CustomBody.plain (f : List Bytes → BRes) : CustomBody :=
-  ⟨f, fun a b => a == b, by intro a b h; simp at h; rw [h]⟩
+def CustomBody.plain (d : GenDesc) (f : List Bytes → BRes) (h : ∀ args, f args = runGen d args) : CustomBody :=
+  ⟨f, fun a b => a == b, by intro a b h; simp at h; rw [h], d, h⟩
 
 inductive Body where
   | const (ctor : Bytes)                                  -- arguments are not looked at
